@@ -37,14 +37,11 @@ def mul_G(cid, k):
 
 
 def scalar_of_seed(cid, seed):
-    """the secret scalar a seed decodes to: RFC 8032 5.1.5 / 5.2.5, RFC 7748 5"""
-    if cid == 6:
-        return 'le(spec.keys.prune25519(spec.keys.sha512(%s)[:32]))' % seed
-    if cid == 7:
-        return 'le(spec.keys.prune_ed448(spec.keys.shake256(%s, 114)[:57]))' % seed
-    if cid == 8:
-        return 'le(spec.keys.prune25519(%s))' % seed
-    return 'le(spec.keys.prune_x448(%s))' % seed
+    """the secret scalar a seed decodes to: RFC 8032 5.1.5 / 5.2.5, RFC 7748 5 (opaque except in the proof of EccKey.__init__)"""
+    return 'spec.keys.scalar_of_seed(%d, %s)' % (cid, seed)
+
+
+OPQ = ['spec.keys.scalar_of_seed']
 
 
 # ---------------------------------------------------------------------------------------------------- hashes used by EccKey.__init__
@@ -122,7 +119,7 @@ def registry(cid, tier='thorough'):
                      modifies=['self._point']))        # callers inline this three-line property (its result may be a NEW object)
     reg.add(Contract(KEY + '.d', params={}, raises={'ValueError': ('iff', 'self._d is None')}, ensures={'v': 'result is self._d'}, modifies=[],
                      result=OINT))
-    reg.add(Contract(KEY + '.seed', params={}, raises={'ValueError': ('iff', 'self._d is None')}, ensures={'v': 'result is self._seed or result == self._seed'},
+    reg.add(Contract(KEY + '.seed', params={}, raises={'ValueError': ('iff', 'self._d is None')}, ensures={'v': 'result == self._seed'},
                      modifies=[], result='bytes|none'))
     # C08: == is semantic.  Components of an ECC key: the curve, the public point Q and the privacy; the private scalar is determined by
     # Q (k -> k*G is injective on [1, order-1], lemma `scalar`), a seed is compared through the scalar it decodes to (RFC 7748 5 / RFC 8032
@@ -133,6 +130,51 @@ def registry(cid, tier='thorough'):
                      ensures={'semantic': 'result <==> (isinstance(other, EccKey) and old(self._d is None) == old(other._d is None) and old(%s) == old(%s))' % (Q, QO),
                               'bool': 'result is True or result is False'},
                      modifies=['self._point', 'other._point'], inline=[KEY + '.pointQ']))
+    # ------------------------------------------------------------------------------------------------ EccKey.__init__ (C05)
+    # **kwargs shapes: every combination of the documented keywords that matters, an unknown keyword, an unknown curve name
+    nm = EC.NAMES[cid] if tier == 'thorough' else EC.NAMES[cid][:2]
+    shapes = []
+    for i_, n_ in enumerate(nm):
+        c_ = 'curve:const:%r' % n_
+        shapes += ['dict(%s, d:int)' % c_, 'dict(%s, seed:bytes)' % c_]
+        if i_ == 0 or tier == 'thorough':       # the name only selects the record: the remaining shapes run on the first name in the quick tier
+            shapes += ['dict(%s)' % c_, 'dict(%s, d:%s)' % (c_, OINT), 'dict(%s, point:%s)' % (c_, OPT),
+                       'dict(%s, d:int, point:%s)' % (c_, OPT), 'dict(%s, seed:bytes, point:%s)' % (c_, OPT), 'dict(%s, d:int, seed:bytes)' % c_]
+    shapes += ['dict(point:%s)' % OPT, 'dict(curve:const:%r, d:int, bogus:int)' % nm[0], 'dict(curve:str, d:int)', 'dict(curve:str, seed:bytes)', 'dict()',
+               'dict(d:int)']
+    D, S, PTK = 'kwargs.get("d")', 'kwargs.get("seed")', 'kwargs.get("point")'
+    unknown_kw = 'any(k not in ("curve", "d", "seed", "point") for k in kwargs)'
+    resolved = '(kwargs.get("curve") if kwargs.get("curve") is not None else (%s.curve if %s is not None else None))' % (PTK, PTK)
+    refuse = ['%s not in %r' % (resolved, EC.ALL_NAMES), '(%s is None and %s is None and %s is None)' % (D, S, PTK), '(%s is not None and %s is not None)' % (D, S)]
+    if cid <= 5:
+        refuse += ['%s is not None' % S, '(%s is not None and not (1 <= spec.keys.ival(%s) and spec.keys.ival(%s) < %d))' % (D, D, D, order)]
+        ens = {'d': '(%s is not None ==> self._d._value == spec.keys.ival(%s)) and (%s is None ==> self._d is None)' % (D, D, D),
+               'range': 'self._d is not None ==> (1 <= self._d._value and self._d._value < %d)' % order}
+    else:
+        L = SK.seed_len(cid)
+        refuse += ['%s is not None' % D, '(%s is not None and len(%s) != %d)' % (S, S, L)]
+        ens = {'d': '(%s is not None ==> self._d._value == spec.keys.scalar_of_seed(%d, %s)) and (%s is None ==> self._d is None)' % (S, cid, S, S),
+               'seed_len': 'self._seed is not None ==> len(self._seed) == %d' % L}
+        if cid == 6:
+            ens['prefix'] = '%s is not None ==> self._prefix == spec.keys.sha512(%s)[32:]' % (S, S)        # RFC 8032 5.1.6 step 1
+        if cid == 7:
+            ens['prefix'] = '%s is not None ==> self._prefix == spec.keys.shake256(%s, 114)[57:]' % (S, S)  # RFC 8032 5.2.6 step 1
+    ens.update({'seed': 'self._seed == %s' % S, 'point': 'self._point is %s' % PTK, 'curve': 'self.curve == %r and self._curve.id == %d' % (SK.CURVE_CANONICAL[cid], cid)})
+    reg.add(Contract(KEY + '.__init__', params={'kwargs': '|'.join(shapes)},
+                     raises={'TypeError': ('iff', unknown_kw), 'ValueError': ('iff', 'not %s and disj(%s)' % (unknown_kw, ', '.join(refuse)))},
+                     ensures=ens, modifies=['self._d', 'self._seed', 'self._point', 'self._curve', 'self.curve', 'self._prefix'],
+                     options={'assume_valid': False}))
+    return finish(reg)
+
+
+REVEAL = {KEY + '.__init__'}
+
+
+def finish(reg):
+    # the seed -> scalar decoding is needed only where it is computed
+    for t, c in reg.contracts.items():
+        if t not in REVEAL:
+            c.opaque = set(c.opaque) | set(OPQ)
     return reg
 
 
@@ -143,4 +185,7 @@ def units(prop, tier):
         for cid in EC.ALL_CIDS:
             out.append(pyvc_unit(prop, 'key.ecc.eq.%s' % EC.LABEL[cid], lambda cid=cid: registry(cid, tier),
                                  [KEY + '.has_private', KEY + '.pointQ', KEY + '.__eq__']))
+    if prop == 'C05':
+        for cid in EC.ALL_CIDS:
+            out.append(pyvc_unit(prop, 'key.ecc.init.%s' % EC.LABEL[cid], lambda cid=cid: registry(cid, tier), [KEY + '.__init__'], weight=2))
     return out
